@@ -20,6 +20,7 @@ const (
 	VsIterationDone  = 3 // a = iteration depth
 	VsBeforeBestmove = 4
 	VsAfterBestmove  = 5 // search thread is about to exit
+	VsInnerMoveDone  = 6 // inside alphaBeta after a move: a = iteration depth*1000 + index of the root move being searched, b = depth of the node
 )
 
 var VerifSyncHook func(point, a, b int)
